@@ -154,8 +154,10 @@ class Model:
         ok = canon(name) in self.registered.get(sid, [])
         if not ok:
             self.stat("connect_unregistered")
-            if ev["exc"] != "NameError":
-                self.find(f"connect|unregistered-name|{'accepted' if ev['exc'] is None else 'raise:' + str(ev['exc'])}", f"connect({sid},{name!r}) -> {ev['exc']}")
+            if ev["exc"] is None:
+                self.find("connect|unregistered-name|accepted", f"connect({sid},{name!r}) did not raise")
+            elif ev["exc"] == "NameError":
+                self.stat("connect_unregistered_NameError")
             return
         if ev["exc"] is not None:
             self.find(f"connect|registered-name|raise:{ev['exc']}", f"connect({sid},{name!r}) raised {ev['exc']}")
